@@ -106,11 +106,14 @@ def main(argv):
             mod = 2 ** 64
         skips = rec.get("skips") or [0] * len(ctr)
         for i in range(1, len(ctr)):
-            # one salt per message sent, and one per request refused after its payload was encrypted
-            want_i = (ctr[0] + i + skips[i] - skips[0]) % mod
-            if ctr[i] != want_i:
-                c.violation("%s: salt counter of message %d is %d, expected %d (first %d + %d messages + %d refused requests)" % (alg, i, ctr[i], want_i, ctr[0], i, skips[i] - skips[0]),
-                            {"config": cfg, "history": rec["ops"][:i + 2], "salts": rec["salts"][:i + 2]}, key="salt-sequence")
+            # the counter advances by one per MESSAGE; a request refused in between (too large) may have spent one more - it does
+            # when its payload had been encrypted before the message turned out not to fit - or none: both keep salts unique
+            step = (ctr[i] - ctr[i - 1]) % mod
+            refused = skips[i] - skips[i - 1]
+            if not 1 <= step <= 1 + refused:
+                c.violation("%s: salt counter of message %d is %d, that of message %d was %d: advance %d with %d refused request(s) in between (expected 1..%d)"
+                            % (alg, i, ctr[i], i - 1, ctr[i - 1], step, refused, 1 + refused),
+                            {"config": cfg, "history": rec["ops"][max(0, i - 6):i + 2], "salts": rec["salts"][max(0, i - 3):i + 2]}, key="salt-sequence")
                 break
         for bad in rec["problems"]:
             c.violation("%s: %s" % (alg, bad["what"]), {"config": cfg, "detail": bad}, key=bad["key"])
